@@ -40,13 +40,15 @@ type In struct {
 	XorLen int      `json:"xorshift_len,omitempty"` // > 0: the stream is nonPeriodic(XorLen) and stream_hex is empty (large streams)
 	Ctor   string   `json:"ctor,omitempty"`         // unknown: constructor under test
 	// verify
-	Carrier string   `json:"carrier,omitempty"`       // where the entry comes from
-	Fields  string   `json:"fields,omitempty"`        // which Checksums-* fields the paragraph has: 256 | 512 | both
-	Kind    string   `json:"recorded,omitempty"`      // what the recorded hash is
-	Other   string   `json:"other_hex,omitempty"`     // the second file's content (the "different stream")
-	Entry   int      `json:"entry,omitempty"`         // which listed file is verified (0: Stream, 1: Other)
-	RecText string   `json:"recorded_text,omitempty"` // recorded = literal-text / near-hash: the hash text itself
-	Hist    []string `json:"history,omitempty"`       // op = history: the operations (see history.go)
+	Carrier  string   `json:"carrier,omitempty"`       // where the entry comes from
+	Fields   string   `json:"fields,omitempty"`        // which Checksums-* fields the paragraph has: 256 | 512 | both
+	Kind     string   `json:"recorded,omitempty"`      // what the recorded hash is
+	Other    string   `json:"other_hex,omitempty"`     // the second file's content (the "different stream")
+	Entry    int      `json:"entry,omitempty"`         // which listed file is verified (0: Stream, 1: Other)
+	RecText  string   `json:"recorded_text,omitempty"` // recorded = literal-text / near-hash: the hash text itself
+	Shape    string   `json:"line_shape,omitempty"`    // op = names: 3-word | 2-word | 5-word
+	NameKind string   `json:"name_kind,omitempty"`     // op = names: what the listed file's name looks like
+	Hist     []string `json:"history,omitempty"`       // op = history: the operations (see history.go)
 }
 
 var allAlgos = []string{"md5", "sha1", "sha256", "sha512"}
@@ -1328,6 +1330,7 @@ func Run(r *mc.Run) {
 	nearHashScenario(r)
 	historyScenario(r)
 	reuseScenario(r)
+	namesScenario(r)
 }
 
 // nonPeriodic returns n bytes of a xorshift generator (no period within the lengths used here).
@@ -1655,6 +1658,8 @@ func Replay(scenario string, raw json.RawMessage) []*mc.Violation {
 		v, _ = checkHistory(scenario, in)
 	case "reuse":
 		v, _ = checkReuse(scenario, in)
+	case "names":
+		v, _ = checkNames(scenario, in)
 	case "verify":
 		v, _ = checkVerify(scenario, in)
 	case "unknown":
